@@ -15,10 +15,22 @@ def partValid : Part → Bool
   | .key k keys _ => keys.contains k
   | _ => false
 
-/-- same call structure: same kind, same length / key set, same static-ness -/
+/-- a part that contributes nothing to the id: unresolved, or with an empty range -/
+def partSkip : Part → Bool
+  | .undet => true
+  | .empty => true
+  | .arr _ len _ => len == 0
+  | .key _ keys _ => keys.isEmpty
+
+def partOk (p : Part) : Bool := partValid p || partSkip p
+
+/-- same call structure: same kind, same length / key set, same static-ness
+(and, for a part with an empty range, the same irrelevant payload) -/
 def sameShapeP : Part → Part → Bool
-  | .arr _ l s, .arr _ l' s' => l == l' && s == s'
-  | .key _ ks s, .key _ ks' s' => ks == ks' && s == s'
+  | .arr i l s, .arr i' l' s' => l == l' && s == s' && (l != 0 || i == i')
+  | .key k ks s, .key k' ks' s' => ks == ks' && s == s' && (!ks.isEmpty || k == k')
+  | .undet, .undet => true
+  | .empty, .empty => true
   | _, _ => false
 
 def sameShape : List Part → List Part → Bool
@@ -26,30 +38,34 @@ def sameShape : List Part → List Part → Bool
   | p :: ps, q :: qs => sameShapeP p q && sameShape ps qs
   | _, _ => false
 
-/-! ## A fuel-free description of what `forkIdGo true` appends -/
+/-! ## A fuel-free description of what `forkIdGo true true` appends -/
 
 def tailStr : List Part → Bool → Nat → Nat → Bytes
   | [], _, idx, dim => forkIndexStr dim idx
   | .arr i len st :: rest, first, idx, dim =>
-    if !st && 1 < len && !first then forkIndexStr dim idx ++ cUnder :: tailStr rest false i len
+    if len == 0 then tailStr rest false idx dim
+    else if !st && 1 < len && !first then forkIndexStr dim idx ++ cUnder :: tailStr rest false i len
     else tailStr rest false (idx + dim * i) (dim * len)
-  | .key k _ _ :: rest, first, idx, dim =>
-    if first then seg k ++ (if rest.isEmpty then [] else cSlash :: tailStr rest true 0 1)
+  | .key k keys _ :: rest, first, idx, dim =>
+    if keys.isEmpty then tailStr rest false idx dim
+    else if first then seg k ++ (if rest.isEmpty then [] else cSlash :: tailStr rest true 0 1)
     else forkIndexStr dim idx ++ cSlash :: (seg k ++ (if rest.isEmpty then [] else cSlash :: tailStr rest true 0 1))
-  | _ :: _, _, idx, dim => forkIndexStr dim idx
+  | _ :: rest, _, idx, dim => tailStr rest false idx dim
 
 def defaultCase : List Part → Bool → Nat → Nat → Bool
   | [], _, idx, _ => idx == 0
   | .arr i len st :: rest, first, idx, dim =>
-    if !st && 1 < len && !first then false else defaultCase rest false (idx + dim * i) (dim * len)
-  | _ :: _, _, _, _ => false
+    if len == 0 then defaultCase rest false idx dim
+    else if !st && 1 < len && !first then false else defaultCase rest false (idx + dim * i) (dim * len)
+  | .key _ keys _ :: rest, _, idx, dim => if keys.isEmpty then defaultCase rest false idx dim else false
+  | _ :: rest, _, idx, dim => defaultCase rest false idx dim
 
 theorem forkIndexStr_ne_nil (dim idx : Nat) : forkIndexStr dim idx ≠ [] := by
   unfold forkIndexStr; split <;> simp [sFork0, sFork]
 
 theorem forkIdGo_spec : ∀ (parts : List Part) (fuel : Nat) (first : Bool) (idx dim : Nat) (buf : Bytes),
-    parts.all partValid = true → 2 * parts.length < fuel →
-    forkIdGo true fuel parts first idx dim buf =
+    parts.all partOk = true → 2 * parts.length < fuel →
+    forkIdGo true true fuel parts first idx dim buf =
       if buf.isEmpty && defaultCase parts first idx dim then ⟨true, buf, true⟩
       else ⟨false, buf ++ tailStr parts first idx dim, true⟩ := by
   intro parts
@@ -71,51 +87,75 @@ theorem forkIdGo_spec : ∀ (parts : List Part) (fuel : Nat) (first : Bool) (idx
     | succ f =>
     cases p with
     | arr i len st =>
-      have hil : i < len := by simpa [partValid] using hp
-      have h0 : (len == 0) = false := by simp; omega
-      have h1 : ¬ (len ≤ i) := by omega
-      simp only [forkIdGo, h0, Bool.false_eq_true, if_false, h1, defaultCase, tailStr]
-      by_cases hc : (!st && decide (1 < len) && !first) = true
-      · simp only [hc, if_true]
-        rw [ih f false i len _ hrest (by omega)]
-        have : (buf ++ forkIndexStr dim idx ++ [cUnder]).isEmpty = false := by simp
-        simp [this, List.append_assoc]
-      · simp only [hc, if_false]
-        exact ih f false _ _ buf hrest (by omega)
+      by_cases hz : len = 0
+      · subst hz
+        simp only [forkIdGo, defaultCase, tailStr, beq_self_eq_true, if_true]
+        exact ih f false idx dim buf hrest (by omega)
+      · have hil : i < len := by
+          simp only [partOk, partValid, partSkip, Bool.or_eq_true, decide_eq_true_eq, beq_iff_eq] at hp
+          rcases hp with h | h
+          · exact h
+          · exact absurd h hz
+        have h0 : (len == 0) = false := by simpa using hz
+        have h1 : ¬ (len ≤ i) := by omega
+        simp only [forkIdGo, h0, Bool.false_eq_true, if_false, h1, defaultCase, tailStr]
+        by_cases hc : (!st && decide (1 < len) && !first) = true
+        · simp only [hc, if_true]
+          rw [ih f false i len _ hrest (by omega)]
+          have : (buf ++ forkIndexStr dim idx ++ [cUnder]).isEmpty = false := by simp
+          simp [this, List.append_assoc]
+        · simp only [hc, if_false]
+          exact ih f false _ _ buf hrest (by omega)
     | key k keys st =>
-      have hk : keys.contains k = true := by simpa [partValid] using hp
-      have hl : (keys.length == 0) = false := by
-        cases keys with
-        | nil => simp at hk
-        | cons _ _ => simp
-      -- the map part as first part of an invocation
-      have hfirst : ∀ (g : Nat) (b : Bytes) (x y : Nat), 2 * rest.length < g →
-          forkIdGo true (g + 1) (.key k keys st :: rest) true x y b =
-            ⟨false, b ++ (seg k ++ (if rest.isEmpty then [] else cSlash :: tailStr rest true 0 1)), true⟩ := by
-        intro g b x y hg
-        simp only [forkIdGo, hl, hk, Bool.not_true, Bool.false_eq_true, if_false, if_true]
-        cases hre : rest.isEmpty with
-        | true => simp [seg, List.append_assoc]
+      by_cases hz : keys = []
+      · subst hz
+        simp only [forkIdGo, defaultCase, tailStr, List.length_nil, beq_self_eq_true, if_true, List.isEmpty_nil]
+        exact ih f false idx dim buf hrest (by omega)
+      · have hk : keys.contains k = true := by
+          simp only [partOk, partValid, partSkip, Bool.or_eq_true, List.isEmpty_iff] at hp
+          rcases hp with h | h
+          · exact h
+          · exact absurd h hz
+        have hl : (keys.length == 0) = false := by
+          cases keys with
+          | nil => exact absurd rfl hz
+          | cons _ _ => simp
+        have hke : keys.isEmpty = false := by
+          cases keys with
+          | nil => exact absurd rfl hz
+          | cons _ _ => rfl
+        -- the map part as first part of an invocation
+        have hfirst : ∀ (g : Nat) (b : Bytes) (x y : Nat), 2 * rest.length < g →
+            forkIdGo true true (g + 1) (.key k keys st :: rest) true x y b =
+              ⟨false, b ++ (seg k ++ (if rest.isEmpty then [] else cSlash :: tailStr rest true 0 1)), true⟩ := by
+          intro g b x y hg
+          simp only [forkIdGo, hl, hk, Bool.not_true, Bool.false_eq_true, if_false, if_true]
+          cases hre : rest.isEmpty with
+          | true => simp [seg, List.append_assoc]
+          | false =>
+            simp only [Bool.false_eq_true, if_false]
+            rw [ih g true 0 1 _ hrest hg]
+            have : (b ++ sForkU ++ pathEscape k ++ [cSlash]).isEmpty = false := by simp
+            simp [this, seg, List.append_assoc]
+        cases first with
+        | true =>
+          rw [hfirst f buf idx dim (by omega)]
+          simp [defaultCase, tailStr, hke]
         | false =>
-          simp only [Bool.false_eq_true, if_false]
-          rw [ih g true 0 1 _ hrest hg]
-          have : (b ++ sForkU ++ pathEscape k ++ [cSlash]).isEmpty = false := by simp
-          simp [this, seg, List.append_assoc]
-      cases first with
-      | true =>
-        rw [hfirst f buf idx dim (by omega)]
-        simp [defaultCase, tailStr]
-      | false =>
-        cases f with
-        | zero => omega
-        | succ g =>
-          have step : forkIdGo true (g + 1 + 1) (.key k keys st :: rest) false idx dim buf =
-              forkIdGo true (g + 1) (.key k keys st :: rest) true 0 1 (buf ++ forkIndexStr dim idx ++ [cSlash]) := by
-            simp only [forkIdGo, hl, hk, Bool.not_true, Bool.false_eq_true, if_false, if_true]
-          rw [step, hfirst g _ 0 1 (by omega)]
-          simp [defaultCase, tailStr, List.append_assoc]
-    | undet => simp [partValid] at hp
-    | empty => simp [partValid] at hp
+          cases f with
+          | zero => omega
+          | succ g =>
+            have step : forkIdGo true true (g + 1 + 1) (.key k keys st :: rest) false idx dim buf =
+                forkIdGo true true (g + 1) (.key k keys st :: rest) true 0 1 (buf ++ forkIndexStr dim idx ++ [cSlash]) := by
+              simp only [forkIdGo, hl, hk, Bool.not_true, Bool.false_eq_true, if_false, if_true]
+            rw [step, hfirst g _ 0 1 (by omega)]
+            simp [defaultCase, tailStr, hke, List.append_assoc]
+    | undet =>
+      simp only [forkIdGo, defaultCase, tailStr]
+      exact ih f false idx dim buf hrest (by omega)
+    | empty =>
+      simp only [forkIdGo, defaultCase, tailStr, if_true]
+      exact ih f false idx dim buf hrest (by omega)
 
 /-! ## Separators cannot occur inside an index string -/
 
@@ -209,8 +249,14 @@ theorem keyBody_inj (kA kB : Bytes) (rA rB : List Part) (tA tB : Bytes)
     simp only [seg] at e1
     exact ⟨pathEscape_inj (List.append_cancel_left e1), fun _ => e2⟩
 
+theorem ok_not_skip_arr {i len : Nat} {st : Bool} (h : partOk (.arr i len st) = true) (hz : len ≠ 0) : i < len := by
+  simp only [partOk, partValid, partSkip, Bool.or_eq_true, decide_eq_true_eq, beq_iff_eq] at h
+  rcases h with h | h
+  · exact h
+  · exact absurd h hz
+
 theorem tailStr_inj : ∀ (a b : List Part) (first : Bool) (iA iB dim : Nat),
-    sameShape a b = true → a.all partValid = true → b.all partValid = true →
+    sameShape a b = true → a.all partOk = true → b.all partOk = true →
     iA < dim → iB < dim → (first = true → iA = iB) →
     tailStr a first iA dim = tailStr b first iB dim → iA = iB ∧ a = b := by
   intro a
@@ -234,75 +280,115 @@ theorem tailStr_inj : ∀ (a b : List Part) (first : Bool) (iA iB dim : Nat),
     | arr i len st =>
       cases q with
       | arr i' len' st' =>
-        simp only [sameShapeP, Bool.and_eq_true, beq_iff_eq] at hpq
-        obtain ⟨hl, hst⟩ := hpq
+        simp only [sameShapeP, Bool.and_eq_true, beq_iff_eq, Bool.or_eq_true, bne_iff_ne] at hpq
+        obtain ⟨⟨hl, hst⟩, hpay⟩ := hpq
         subst hl; subst hst
-        have hi : i < len := by simpa [partValid] using hvp
-        have hi' : i' < len := by simpa [partValid] using hvq
         simp only [tailStr] at h
-        by_cases hc : (!st && decide (1 < len) && !first) = true
-        · simp only [hc, if_true] at h
-          obtain ⟨e1, e2⟩ := append_sep_inj _ _ _ _ (under_not_in_forkIndexStr dim iA)
-            (under_not_in_forkIndexStr dim iB) h
-          obtain ⟨e3, e4⟩ := ih rb false i i' len hsr hvra hvrb hi hi' (by simp) e2
-          exact ⟨forkIndexStr_inj e1, by rw [e3, e4]⟩
-        · simp only [hc, if_false] at h
-          obtain ⟨e3, e4⟩ := ih rb false _ _ (dim * len) hsr hvra hvrb (radix_bound hA hi) (radix_bound hB hi')
-            (by simp) h
-          obtain ⟨e5, e6⟩ := mixed_radix hA hB e3
-          exact ⟨e5, by rw [e6, e4]⟩
+        by_cases hz : len = 0
+        · subst hz
+          simp only [beq_self_eq_true, if_true] at h
+          have hii : i = i' := by
+            rcases hpay with h' | h'
+            · exact absurd rfl h'
+            · exact h'
+          obtain ⟨e3, e4⟩ := ih rb false iA iB dim hsr hvra hvrb hA hB (by simp) h
+          exact ⟨e3, by rw [hii, e4]⟩
+        · have h0 : (len == 0) = false := by simpa using hz
+          simp only [h0, Bool.false_eq_true, if_false] at h
+          have hi : i < len := ok_not_skip_arr hvp hz
+          have hi' : i' < len := ok_not_skip_arr hvq hz
+          by_cases hc : (!st && decide (1 < len) && !first) = true
+          · simp only [hc, if_true] at h
+            obtain ⟨e1, e2⟩ := append_sep_inj _ _ _ _ (under_not_in_forkIndexStr dim iA)
+              (under_not_in_forkIndexStr dim iB) h
+            obtain ⟨e3, e4⟩ := ih rb false i i' len hsr hvra hvrb hi hi' (by simp) e2
+            exact ⟨forkIndexStr_inj e1, by rw [e3, e4]⟩
+          · simp only [hc, if_false] at h
+            obtain ⟨e3, e4⟩ := ih rb false _ _ (dim * len) hsr hvra hvrb (radix_bound hA hi) (radix_bound hB hi')
+              (by simp) h
+            obtain ⟨e5, e6⟩ := mixed_radix hA hB e3
+            exact ⟨e5, by rw [e6, e4]⟩
       | key _ _ _ => simp [sameShapeP] at hpq
       | undet => simp [sameShapeP] at hpq
       | empty => simp [sameShapeP] at hpq
     | key k keys st =>
       cases q with
       | key k' keys' st' =>
-        simp only [sameShapeP, Bool.and_eq_true, beq_iff_eq] at hpq
-        obtain ⟨hl, hst⟩ := hpq
+        simp only [sameShapeP, Bool.and_eq_true, beq_iff_eq, Bool.or_eq_true, Bool.not_eq_true'] at hpq
+        obtain ⟨⟨hl, hst⟩, hpay⟩ := hpq
         subst hl; subst hst
         have hre := sameShape_isEmpty ra rb hsr
         simp only [tailStr] at h
-        cases first with
+        cases hke : keys.isEmpty with
         | true =>
-          simp only [if_true] at h
-          obtain ⟨ek, et⟩ := keyBody_inj k k' ra rb _ _ hre h
-          refine ⟨hfi rfl, ?_⟩
-          cases he : ra.isEmpty with
-          | true =>
-            have h1 : ra = [] := by simpa using he
-            have h2 : rb = [] := by rw [hre] at he; simpa using he
-            rw [ek, h1, h2]
-          | false =>
-            obtain ⟨_, e4⟩ := ih rb true 0 0 1 hsr hvra hvrb (by omega) (by omega) (by simp) (et he)
-            rw [ek, e4]
+          simp only [hke, if_true] at h
+          have hkk : k = k' := by
+            rcases hpay with h' | h'
+            · rw [hke] at h'; exact absurd h' (by simp)
+            · exact h'
+          obtain ⟨e3, e4⟩ := ih rb false iA iB dim hsr hvra hvrb hA hB (by simp) h
+          exact ⟨e3, by rw [hkk, e4]⟩
         | false =>
-          simp only [Bool.false_eq_true, if_false] at h
-          obtain ⟨e1, e2⟩ := append_sep_inj _ _ _ _ (slash_not_in_forkIndexStr dim iA)
-            (slash_not_in_forkIndexStr dim iB) h
-          obtain ⟨ek, et⟩ := keyBody_inj k k' ra rb _ _ hre e2
-          refine ⟨forkIndexStr_inj e1, ?_⟩
-          cases he : ra.isEmpty with
+          simp only [hke, Bool.false_eq_true, if_false] at h
+          cases first with
           | true =>
-            have h1 : ra = [] := by simpa using he
-            have h2 : rb = [] := by rw [hre] at he; simpa using he
-            rw [ek, h1, h2]
+            simp only [if_true] at h
+            obtain ⟨ek, et⟩ := keyBody_inj k k' ra rb _ _ hre h
+            refine ⟨hfi rfl, ?_⟩
+            cases he : ra.isEmpty with
+            | true =>
+              have h1 : ra = [] := by simpa using he
+              have h2 : rb = [] := by rw [hre] at he; simpa using he
+              rw [ek, h1, h2]
+            | false =>
+              obtain ⟨_, e4⟩ := ih rb true 0 0 1 hsr hvra hvrb (by omega) (by omega) (by simp) (et he)
+              rw [ek, e4]
           | false =>
-            obtain ⟨_, e4⟩ := ih rb true 0 0 1 hsr hvra hvrb (by omega) (by omega) (by simp) (et he)
-            rw [ek, e4]
+            simp only [Bool.false_eq_true, if_false] at h
+            obtain ⟨e1, e2⟩ := append_sep_inj _ _ _ _ (slash_not_in_forkIndexStr dim iA)
+              (slash_not_in_forkIndexStr dim iB) h
+            obtain ⟨ek, et⟩ := keyBody_inj k k' ra rb _ _ hre e2
+            refine ⟨forkIndexStr_inj e1, ?_⟩
+            cases he : ra.isEmpty with
+            | true =>
+              have h1 : ra = [] := by simpa using he
+              have h2 : rb = [] := by rw [hre] at he; simpa using he
+              rw [ek, h1, h2]
+            | false =>
+              obtain ⟨_, e4⟩ := ih rb true 0 0 1 hsr hvra hvrb (by omega) (by omega) (by simp) (et he)
+              rw [ek, e4]
       | arr _ _ _ => simp [sameShapeP] at hpq
       | undet => simp [sameShapeP] at hpq
       | empty => simp [sameShapeP] at hpq
-    | undet => simp [partValid] at hvp
-    | empty => simp [partValid] at hvp
+    | undet =>
+      cases q with
+      | undet =>
+        simp only [tailStr] at h
+        obtain ⟨e3, e4⟩ := ih rb false iA iB dim hsr hvra hvrb hA hB (by simp) h
+        exact ⟨e3, by rw [e4]⟩
+      | arr _ _ _ => simp [sameShapeP] at hpq
+      | key _ _ _ => simp [sameShapeP] at hpq
+      | empty => simp [sameShapeP] at hpq
+    | empty =>
+      cases q with
+      | empty =>
+        simp only [tailStr] at h
+        obtain ⟨e3, e4⟩ := ih rb false iA iB dim hsr hvra hvrb hA hB (by simp) h
+        exact ⟨e3, by rw [e4]⟩
+      | arr _ _ _ => simp [sameShapeP] at hpq
+      | key _ _ _ => simp [sameShapeP] at hpq
+      | undet => simp [sameShapeP] at hpq
 
 /-! ## The default (`fork0`) case at top level -/
 
-/-- all parts are array parts folded into one flat index: (total, dimension) -/
+/-- all contributing parts are array parts folded into one flat index: (total, dimension) -/
 def flatIdx : List Part → Bool → Nat → Nat → Option (Nat × Nat)
   | [], _, idx, dim => some (idx, dim)
   | .arr i len st :: rest, first, idx, dim =>
-    if !st && 1 < len && !first then none else flatIdx rest false (idx + dim * i) (dim * len)
-  | _ :: _, _, _, _ => none
+    if len == 0 then flatIdx rest false idx dim
+    else if !st && 1 < len && !first then none else flatIdx rest false (idx + dim * i) (dim * len)
+  | .key _ keys _ :: rest, _, idx, dim => if keys.isEmpty then flatIdx rest false idx dim else none
+  | _ :: rest, _, idx, dim => flatIdx rest false idx dim
 
 theorem flatIdx_some : ∀ (a : List Part) (first : Bool) (idx dim T D : Nat),
     flatIdx a first idx dim = some (T, D) →
@@ -315,14 +401,24 @@ theorem flatIdx_some : ∀ (a : List Part) (first : Bool) (idx dim T D : Nat),
     cases p with
     | arr i len st =>
       simp only [flatIdx] at h
-      by_cases hc : (!st && decide (1 < len) && !first) = true
-      · simp [hc] at h
-      · simp only [hc, if_false] at h
-        simp only [tailStr, defaultCase, hc, if_false]
+      simp only [tailStr, defaultCase]
+      by_cases hz : (len == 0) = true
+      · simp only [hz, if_true] at h ⊢
         exact ih _ _ _ _ _ h
-    | key _ _ _ => simp [flatIdx] at h
-    | undet => simp [flatIdx] at h
-    | empty => simp [flatIdx] at h
+      · simp only [hz, Bool.false_eq_true, if_false] at h ⊢
+        by_cases hc : (!st && decide (1 < len) && !first) = true
+        · simp [hc] at h
+        · simp only [hc, Bool.false_eq_true, if_false] at h ⊢
+          exact ih _ _ _ _ _ h
+    | key _ keys _ =>
+      simp only [flatIdx] at h
+      simp only [tailStr, defaultCase]
+      by_cases hz : keys.isEmpty = true
+      · simp only [hz, if_true] at h ⊢
+        exact ih _ _ _ _ _ h
+      · simp [hz] at h
+    | undet => simp only [flatIdx] at h; simp only [tailStr, defaultCase]; exact ih _ _ _ _ _ h
+    | empty => simp only [flatIdx] at h; simp only [tailStr, defaultCase]; exact ih _ _ _ _ _ h
 
 theorem flatIdx_none : ∀ (a : List Part) (first : Bool) (idx dim : Nat),
     flatIdx a first idx dim = none → defaultCase a first idx dim = false := by
@@ -335,13 +431,23 @@ theorem flatIdx_none : ∀ (a : List Part) (first : Bool) (idx dim : Nat),
     | arr i len st =>
       simp only [flatIdx] at h
       simp only [defaultCase]
-      by_cases hc : (!st && decide (1 < len) && !first) = true
-      · simp [hc]
-      · simp only [hc, if_false] at h ⊢
+      by_cases hz : (len == 0) = true
+      · simp only [hz, if_true] at h ⊢
         exact ih _ _ _ h
-    | key _ _ _ => rfl
-    | undet => rfl
-    | empty => rfl
+      · simp only [hz, Bool.false_eq_true, if_false] at h ⊢
+        by_cases hc : (!st && decide (1 < len) && !first) = true
+        · simp [hc]
+        · simp only [hc, Bool.false_eq_true, if_false] at h ⊢
+          exact ih _ _ _ h
+    | key _ keys _ =>
+      simp only [flatIdx] at h
+      simp only [defaultCase]
+      by_cases hz : keys.isEmpty = true
+      · simp only [hz, if_true] at h ⊢
+        exact ih _ _ _ h
+      · simp [hz]
+    | undet => simp only [flatIdx] at h; simp only [defaultCase]; exact ih _ _ _ h
+    | empty => simp only [flatIdx] at h; simp only [defaultCase]; exact ih _ _ _ h
 
 theorem flatIdx_shape : ∀ (a b : List Part) (first : Bool) (iA iB dim : Nat),
     sameShape a b = true →
@@ -366,37 +472,56 @@ theorem flatIdx_shape : ∀ (a b : List Part) (first : Bool) (iA iB dim : Nat),
         cases q with
         | arr i' len' st' =>
           simp only [sameShapeP, Bool.and_eq_true, beq_iff_eq] at hpq
-          obtain ⟨hl, hst⟩ := hpq
+          obtain ⟨⟨hl, hst⟩, _⟩ := hpq
           subst hl; subst hst
           simp only [flatIdx]
-          by_cases hc : (!st && decide (1 < len) && !first) = true
-          · simp [hc]
-          · simp only [hc, if_false]
-            exact ih rb false _ _ _ hsr
+          by_cases hz : (len == 0) = true
+          · simp only [hz, if_true]; exact ih rb false _ _ _ hsr
+          · simp only [hz, Bool.false_eq_true, if_false]
+            by_cases hc : (!st && decide (1 < len) && !first) = true
+            · simp [hc]
+            · simp only [hc, Bool.false_eq_true, if_false]
+              exact ih rb false _ _ _ hsr
         | key _ _ _ => simp [sameShapeP] at hpq
         | undet => simp [sameShapeP] at hpq
         | empty => simp [sameShapeP] at hpq
       | key k keys st =>
         cases q with
-        | key _ _ _ => exact Or.inl ⟨rfl, rfl⟩
+        | key k' keys' st' =>
+          simp only [sameShapeP, Bool.and_eq_true, beq_iff_eq] at hpq
+          obtain ⟨⟨hl, _⟩, _⟩ := hpq
+          subst hl
+          simp only [flatIdx]
+          by_cases hz : keys.isEmpty = true
+          · simp only [hz, if_true]; exact ih rb false _ _ _ hsr
+          · simp [hz]
         | arr _ _ _ => simp [sameShapeP] at hpq
         | undet => simp [sameShapeP] at hpq
         | empty => simp [sameShapeP] at hpq
-      | undet => cases q <;> simp [sameShapeP] at hpq
-      | empty => cases q <;> simp [sameShapeP] at hpq
+      | undet =>
+        cases q with
+        | undet => simp only [flatIdx]; exact ih rb false _ _ _ hsr
+        | arr _ _ _ => simp [sameShapeP] at hpq
+        | key _ _ _ => simp [sameShapeP] at hpq
+        | empty => simp [sameShapeP] at hpq
+      | empty =>
+        cases q with
+        | empty => simp only [flatIdx]; exact ih rb false _ _ _ hsr
+        | arr _ _ _ => simp [sameShapeP] at hpq
+        | key _ _ _ => simp [sameShapeP] at hpq
+        | undet => simp [sameShapeP] at hpq
 
 /-- the string `ForkId.forkId` produces at top level -/
 def topStr (a : List Part) : Bytes := if defaultCase a true 0 1 then sFork0 else tailStr a true 0 1
 
 theorem topStr_inj (a b : List Part) (hs : sameShape a b = true)
-    (hva : a.all partValid = true) (hvb : b.all partValid = true)
+    (hva : a.all partOk = true) (hvb : b.all partOk = true)
     (h : topStr a = topStr b) : a = b := by
   rcases flatIdx_shape a b true 0 0 1 hs with ⟨ha, hb⟩ | ⟨TA, TB, D, ha, hb⟩
   · simp only [topStr, flatIdx_none _ _ _ _ ha, flatIdx_none _ _ _ _ hb, Bool.false_eq_true, if_false] at h
     exact (tailStr_inj a b true 0 0 1 hs hva hvb (by omega) (by omega) (by simp) h).2
   · obtain ⟨ta, da⟩ := flatIdx_some _ _ _ _ _ _ ha
     obtain ⟨tb, db⟩ := flatIdx_some _ _ _ _ _ _ hb
-    -- both strings carry the flat index as their decimal value
     have hval : ∀ T, digitsVal ((if T = 0 then sFork0 else forkIndexStr D T).drop 4) 0 = some T := by
       intro T
       by_cases hT : T = 0
@@ -409,8 +534,8 @@ theorem topStr_inj (a b : List Part) (hs : sameShape a b = true)
     have : tailStr a true 0 1 = tailStr b true 0 1 := by rw [ta, tb, hTT]
     exact (tailStr_inj a b true 0 0 1 hs hva hvb (by omega) (by omega) (by simp) this).2
 
-theorem forkIdString_topStr (a : List Part) (hva : a.all partValid = true) (hlen : 2 ≤ a.length) :
-    forkIdString true a = some (topStr a) := by
+theorem forkIdString_topStr (a : List Part) (hva : a.all partOk = true) (hlen : 2 ≤ a.length) :
+    forkIdString true true a = some (topStr a) := by
   match a, hlen with
   | p :: q :: r, _ =>
     simp only [forkIdString]
@@ -431,14 +556,18 @@ theorem sameShape_length : ∀ (a b : List Part), sameShape a b = true → a.len
       simp [ih s h.2]
 
 /-- Fork id strings are injective in the fork-part tuple, for every nesting
-of array and map parts. -/
+of array and map parts (single parts must be resolved and in range; in longer
+lists parts with an empty range or unresolved parts may occur anywhere). -/
 theorem forkIdString_inj (a b : List Part) (hs : sameShape a b = true)
-    (hva : a.all partValid = true) (hvb : b.all partValid = true)
-    (h : forkIdString true a = forkIdString true b) : a = b := by
+    (hva : a.all partOk = true) (hvb : b.all partOk = true)
+    (h1 : a.length = 1 → a.all partValid = true) (h1' : b.length = 1 → b.all partValid = true)
+    (h : forkIdString true true a = forkIdString true true b) : a = b := by
   have hlen := sameShape_length a b hs
   match a, b, hlen with
   | [], [], _ => rfl
   | [p], [q], _ =>
+    have hva := h1 rfl
+    have hvb := h1' rfl
     simp only [sameShape, Bool.and_eq_true] at hs
     simp only [List.all_cons, List.all_nil, Bool.and_true] at hva hvb
     simp only [forkIdString] at h
@@ -448,7 +577,7 @@ theorem forkIdString_inj (a b : List Part) (hs : sameShape a b = true)
       | arr i' len' st' =>
         have hpq := hs.1
         simp only [sameShapeP, Bool.and_eq_true, beq_iff_eq] at hpq
-        obtain ⟨hl, hst⟩ := hpq
+        obtain ⟨⟨hl, hst⟩, _⟩ := hpq
         subst hl; subst hst
         have hi : i < len := by simpa [partValid] using hva
         have hi' : i' < len := by simpa [partValid] using hvb
@@ -472,7 +601,7 @@ theorem forkIdString_inj (a b : List Part) (hs : sameShape a b = true)
       | key k' keys' st' =>
         have hpq := hs.1
         simp only [sameShapeP, Bool.and_eq_true, beq_iff_eq] at hpq
-        obtain ⟨hl, hst⟩ := hpq
+        obtain ⟨⟨hl, hst⟩, _⟩ := hpq
         subst hl; subst hst
         have hk : keys.contains k = true := by simpa [partValid] using hva
         cases hx : singleId (.key k keys st) with
